@@ -191,20 +191,20 @@ Qed.
 Lemma find_block_with_space_spec c s size r s' :
   find_block_with_space c s size = (r, s') ->
   fr c s s' /\ (forall idx, r = Ok idx -> (s_old s' + s_cur s' <= idx)%nat /\ (idx < length (s_blocks s'))%nat)
-  /\ (forall e, r = Err e -> e <> cNotFound).
+  /\ (forall e, r = Err e -> e <> cNotFound /\ e <> cOK).
 Proof.
   unfold find_block_with_space.
   destruct (c_bs c <? size).
-  { intros H; inversion H; subst. split; [apply fr_refl|]. split; intros; [discriminate|]. inversion H0; discriminate. }
+  { intros H; inversion H; subst. split; [apply fr_refl|]. split; intros; [discriminate|]. inversion H0; split; discriminate. }
   pose proof (fbs_release_fr c (S (length (s_blocks s))) s) as F1.
   destruct (fbs_grow c (S (c_cur c + c_new c)) (fbs_release c (S (length (s_blocks s))) s)) as [b2 s2] eqn:E2.
   pose proof (fbs_grow_fr _ _ _ _ _ E2) as F2.
   destruct b2.
-  2:{ intros H; inversion H; subst. split; [eapply fr_trans; eauto|]. split; intros; [discriminate|]. inversion H0; discriminate. }
+  2:{ intros H; inversion H; subst. split; [eapply fr_trans; eauto|]. split; intros; [discriminate|]. inversion H0; split; discriminate. }
   destruct (fbs_rotate c (fuel_of s2) size s2) as [b3 s3] eqn:E3.
   pose proof (fbs_rotate_fr _ _ _ _ _ _ E3) as F3.
   destruct b3.
-  2:{ intros H; inversion H; subst. split; [eapply fr_trans; [eauto|eapply fr_trans; eauto]|]. split; intros; [discriminate|]. inversion H0; discriminate. }
+  2:{ intros H; inversion H; subst. split; [eapply fr_trans; [eauto|eapply fr_trans; eauto]|]. split; intros; [discriminate|]. inversion H0; split; discriminate. }
   destruct (fbs_pick c (S (S (s_new s3)) * 2) size s3) as [[idx s4]|] eqn:E4.
   - apply fbs_pick_spec in E4. destruct E4 as (S4 & L1 & L2 & B4).
     intros H; inversion H; subst.
@@ -215,7 +215,7 @@ Proof.
     assert (s_old s' = s_old s3) by (change (k_old (proj s') = k_old (proj s3)); rewrite P; reflexivity).
     assert (s_cur s' = s_cur s3) by (change (k_cur (proj s') = k_cur (proj s3)); rewrite P; reflexivity).
     rewrite B4. lia.
-  - intros H; inversion H; subst. split; [eapply fr_trans; [eauto|eapply fr_trans; eauto]|]. split; intros; [discriminate|]. inversion H0; discriminate.
+  - intros H; inversion H; subst. split; [eapply fr_trans; [eauto|eapply fr_trans; eauto]|]. split; intros; [discriminate|]. inversion H0; split; discriminate.
 Qed.
 
 Lemma ocn_put_spec c s size r s' :
@@ -223,7 +223,7 @@ Lemma ocn_put_spec c s size r s' :
   fr c s s' /\
   (forall wr, r = Ok wr -> s_released s' + N.of_nat (s_old s') <= wr_abs wr /\
                            wr_abs wr < s_released s' + N.of_nat (length (s_blocks s')))
-  /\ (forall e, r = Err e -> e <> cNotFound).
+  /\ (forall e, r = Err e -> e <> cNotFound /\ e <> cOK).
 Proof.
   unfold ocn_put. destruct (find_block_with_space c s size) as [r0 s0] eqn:E.
   apply find_block_with_space_spec in E. destruct E as (F & HI & HE).
@@ -237,7 +237,7 @@ Proof.
       split; [|intros; discriminate].
       intros wr H; inversion H; subst; clear H. cbn [wr_abs].
       unfold upd_blocks; fields. rewrite map_uid_length. lia.
-    + intros H; inversion H; subst; clear H. split; [exact F|]. split; intros; [discriminate|]. inversion H; discriminate.
+    + intros H; inversion H; subst; clear H. split; [exact F|]. split; intros; [discriminate|]. inversion H; split; discriminate.
   - intros H; inversion H; subst; clear H. split; [exact F|]. split; intros; [discriminate|]. inversion H; subst. apply HE. reflexivity.
 Qed.
 
